@@ -69,3 +69,20 @@ package roi
 //@   calls_havoc
 //@   modifies *
 //@   assert at "zleft := dz % batchsize": batchsize >= 1
+
+// GetMask (C18: mask queries agree with the spans for all signed coordinates): the block range covered by
+// the requested subvolume is the FLOOR block of its first and last voxel in each dimension (fdiv of
+// /verif/specs/geom.spec), so ROI blocks at negative coordinates are not skipped. ASSUMED: the instance's
+// block size is positive (instance invariant).
+//@ func blockOf
+//@   prop C18
+//@   requires blockSize > 0
+//@   ensures result == fdiv(v, blockSize)
+
+//@ func Data.GetMask
+//@   prop C18
+//@   requires d != nil
+//@   safety_off
+//@   modifies *
+//@   assume after "pt1 := subvol.EndPoint()": d.BlockSize[0] > 0 && d.BlockSize[1] > 0 && d.BlockSize[2] > 0
+//@   assert at "minIndex := minIndexByBlockZ(minBlockZ)": minBlockZ == fdiv(pt0.Value(2), d.BlockSize[2]) && maxBlockZ == fdiv(pt1.Value(2), d.BlockSize[2]) && minBlockY == fdiv(pt0.Value(1), d.BlockSize[1]) && maxBlockY == fdiv(pt1.Value(1), d.BlockSize[1]) && minBlockX == fdiv(pt0.Value(0), d.BlockSize[0]) && maxBlockX == fdiv(pt1.Value(0), d.BlockSize[0])
